@@ -384,6 +384,16 @@ Fixpoint format_observers (l : list obs_item) : option (list Z) :=
               end
   end.
 
+(* the whole function: an empty list is rejected; a list that np.array(inp, dtype=float) converts -- only position
+   arrays of one shape -- is ONE position array (one pixel sensor, identified here by its first entry) *)
+Definition is_pos (o : obs_item) : bool := match o with OIPos _ => true | _ => false end.
+Definition format_observers_top (l : list obs_item) : option (list Z) :=
+  match l with
+  | [] => None
+  | OIPos i :: r => if forallb is_pos r then Some [i] else format_observers l
+  | _ => format_observers l
+  end.
+
 Definition olist_eqb (a b : option (list Z)) : bool :=
   match a, b with
   | None, None => true
@@ -472,4 +482,4 @@ Definition failing_rcases (cs : list (mobj * nat * vres)) : list Z :=
   failing_from (fun c => vres_eqb (validate_getBH_inputs (fst (fst c)) (snd (fst c))) (snd c)) 0 cs.
 
 Definition failing_ocases (cs : list (list obs_item * option (list Z))) : list Z :=
-  failing_from (fun c => olist_eqb (format_observers (fst c)) (snd c)) 0 cs.
+  failing_from (fun c => olist_eqb (format_observers_top (fst c)) (snd c)) 0 cs.
